@@ -7,6 +7,7 @@
 #include <igris/datastruct/dlist.h>
 #include <igris/datastruct/hlist.h>
 #include <igris/datastruct/slist.h>
+#include <algorithm>
 #include <memory>
 #include <string>
 #include <vector>
@@ -103,7 +104,9 @@ struct CDlist : mc::Model
         K_MOVE,
         K_MOVE_TAIL,
         K_MOVE_SORTED,
-        K_INSTEAD
+        K_INSTEAD,
+        K_FILTER_SAFE,      // dlist_for_each_safe with the body removing / moving the visited node
+        K_FILTER_ENTRY_SAFE // dlist_for_each_entry_safe, same bodies
     };
     CDlist() : N(g_nodes()), E(H + N), st(E, FRESH), ref(E)
     {
@@ -132,6 +135,12 @@ struct CDlist : mc::Model
         for (int x = H; x < E; x++)
             for (int h = 0; h < H; h++)
                 ops.push_back({K_MOVE_SORTED, x, h});
+        // x = head whose ring is traversed, a = what the loop body does with the node it stands on:
+        // 0/1 del_init nodes of even/odd position, 2 del_init every node, 3 move every node to the other head's tail
+        for (int k : {K_FILTER_SAFE, K_FILTER_ENTRY_SAFE})
+            for (int h = 0; h < H; h++)
+                for (int a = 0; a < 4; a++)
+                    ops.push_back({k, h, a});
     }
     ~CDlist() { free(it); }
     int nops() override { return (int)ops.size(); }
@@ -141,6 +150,11 @@ struct CDlist : mc::Model
         static const char *nm[] = {"dlist_init", "dlist_add_next", "dlist_add_prev", "dlist_del", "dlist_del_init",
                                    "dlist_move", "dlist_move_tail", "dlist_move_sorted", "dlist_insert_instead"};
         Op &p = ops[o];
+        if (p.kind == K_FILTER_SAFE || p.kind == K_FILTER_ENTRY_SAFE)
+        {
+            static const char *body[] = {"del_init even positions", "del_init odd positions", "del_init every node", "move_tail every node to the other head"};
+            return mc::fmt("%s(%s){%s}", p.kind == K_FILTER_SAFE ? "dlist_for_each_safe" : "dlist_for_each_entry_safe", el(p.x).c_str(), body[p.a]);
+        }
         if (p.kind == K_INIT || p.kind == K_DEL || p.kind == K_DEL_INIT)
             return mc::fmt("%s(%s)", nm[p.kind], el(p.x).c_str());
         return mc::fmt("%s(%s,%s)", nm[p.kind], el(p.x).c_str(), el(p.a).c_str());
@@ -264,6 +278,66 @@ struct CDlist : mc::Model
             st[p.x] = INIT;
             sigk = "insert_instead";
             break;
+        case K_FILTER_SAFE:
+        case K_FILTER_ENTRY_SAFE:
+        {
+            // the "safe" loops exist so that the body may remove the node the loop stands on
+            int other = 1 - p.x;
+            if (st[p.x] != INIT || st[other] != INIT)
+                return false;
+            vector<int> want = ref.cycle(p.x), seen;
+            for (int i : want)
+                if (i < H)
+                    return false; // entry macros cast every ring member to an item
+            if (want.empty())
+                return false;
+            mc::crash_context("C01.c_dlist.for_each_safe.crash");
+            mc::nontrivial();
+            sigk = p.kind == K_FILTER_SAFE ? "for_each_safe" : "for_each_entry_safe";
+            int pos_no = 0;
+            bool runaway = false;
+            auto body = [&](int i) {
+                seen.push_back(i);
+                if ((int)seen.size() > 4 * E)
+                {
+                    runaway = true;
+                    return false;
+                }
+                if (i < 0 || i >= E || st[i] != INIT)
+                    return false; // the loop handed the body something that is not a live node
+                bool act = p.a == 2 || p.a == 3 || (pos_no % 2) == p.a;
+                pos_no++;
+                if (act && p.a == 3)
+                {
+                    dlist_move_tail(&it[i].lnk, &it[other].lnk);
+                    ref.unlink(i);
+                    ref.ins_before(i, other);
+                }
+                else if (act)
+                {
+                    dlist_del_init(&it[i].lnk);
+                    ref.unlink(i);
+                }
+                return true;
+            };
+            struct dlist_head *hd = &it[p.x].lnk, *pos, *nn;
+            CItem *e, *en;
+            if (p.kind == K_FILTER_SAFE)
+            {
+                dlist_for_each_safe(pos, nn, hd) if (!body(idx(pos))) break;
+            }
+            else
+            {
+                dlist_for_each_entry_safe(e, en, hd, lnk) if (!body(idx(&e->lnk))) break;
+            }
+            if (runaway || seen != want)
+            {
+                mc::violation(mc::fmt("C01.c_dlist.%s.visits", sigk), "%s over ring %s with the body removing nodes visited %s%s", sigk, vstr(want).c_str(),
+                              vstr(seen).c_str(), runaway ? " (and did not stop)" : "");
+                return true;
+            }
+            break;
+        }
         }
         mc::crash_context("C01.c_dlist.observe.crash");
         check(sigk);
@@ -1182,8 +1256,172 @@ static void long_lists()
     }
 }
 
+// ================================================================ F. one element on several lists at once
+// An intrusive element may carry several link members of the same type and sit on one list per member
+// (schedee on a run queue and a wait queue).  Every list must hand back the element that owns the link it
+// holds, whichever member that is: all histories of `depth` operations over 3 elements x 2 members, for the
+// C++ dlist, the C++ slist and the C entry macros.
+struct TwoX
+{
+    int id;
+    igris::dlist_node la;
+    int gap[3];
+    igris::dlist_node lb;
+    struct slist_head sa;
+    long gap2;
+    struct slist_head sb;
+    TwoX(int i) : id(i) { sa.next = sb.next = nullptr; }
+};
+struct TwoC
+{
+    int id;
+    struct dlist_head la;
+    int gap[3];
+    struct dlist_head lb;
+};
+static void two_links_per_element()
+{
+    const int N = 3, D = mc::thorough() ? 5 : 4;
+    // op = element * 6 + {A.move_back, A.move_front, B.move_back, B.move_front, A.pop, B.pop}
+    int first = mc::choose(N * 6 * N * 6);
+    vector<int> hist = {first / (N * 6), first % (N * 6)};
+    for (int d = 2; d < D; d++)
+        hist.push_back(mc::choose(N * 6));
+    string desc;
+    for (int o : hist)
+        desc += mc::fmt("%c.%s(e%d) ", "AABBAB"[o % 6], (o % 6) >= 4 ? "pop" : (o % 6) % 2 ? "move_front" : "move_back", o / 6);
+    mc::describe("two link members per element: %s", desc.c_str());
+    mc::crash_context("C01.two_links.crash");
+    {
+        TwoX e0(0), e1(1), e2(2);
+        TwoX *e[N] = {&e0, &e1, &e2};
+        igris::dlist<TwoX, &TwoX::la> A;
+        igris::dlist<TwoX, &TwoX::lb> B;
+        TwoC c[N];
+        struct dlist_head ca, cb;
+        dlist_init(&ca);
+        dlist_init(&cb);
+        for (int i = 0; i < N; i++)
+        {
+            c[i].id = i;
+            dlist_init(&c[i].la);
+            dlist_init(&c[i].lb);
+        }
+        vector<int> ra, rb; // reference
+        auto drop = [](vector<int> &v, int x) { v.erase(std::remove(v.begin(), v.end(), x), v.end()); };
+        for (int o : hist)
+        {
+            int x = o / 6, k = o % 6;
+            vector<int> &r = (k == 2 || k == 3 || k == 5) ? rb : ra;
+            bool onb = &r == &rb;
+            if (std::find(r.begin(), r.end(), x) != r.end() || !ra.empty() || !rb.empty())
+                mc::nontrivial();
+            drop(r, x);
+            struct dlist_head *cl = onb ? &c[x].lb : &c[x].la, *ch = onb ? &cb : &ca;
+            if (k >= 4)
+            {
+                if (onb)
+                    B.pop(*e[x]);
+                else
+                    A.pop(*e[x]);
+                dlist_del_init(cl);
+                continue;
+            }
+            bool front = k % 2;
+            if (onb)
+                front ? B.move_front(*e[x]) : B.move_back(*e[x]);
+            else
+                front ? A.move_front(*e[x]) : A.move_back(*e[x]);
+            front ? dlist_move(cl, ch) : dlist_move_tail(cl, ch);
+            if (front)
+                r.insert(r.begin(), x);
+            else
+                r.push_back(x);
+        }
+        auto report = [&](const char *which, const char *how, const vector<int> &got, const vector<int> &want) {
+            if (got != want)
+                mc::violation(mc::fmt("C01.two_links.%s.%s", which, how), "%s list %s yields %s, reference %s", which, how, vstr(got).c_str(), vstr(want).c_str());
+        };
+        auto ident = [&](TwoX *p) {
+            for (int i = 0; i < N; i++)
+                if (p == e[i])
+                    return i;
+            return -1; // not an element at all: the container computed from the link is wrong
+        };
+        auto cident = [&](TwoC *p) {
+            for (int i = 0; i < N; i++)
+                if (p == &c[i])
+                    return i;
+            return -1;
+        };
+        vector<int> ga, gb, gra, grb;
+        for (auto it = A.begin(); it != A.end() && ga.size() < 10; ++it)
+            ga.push_back(ident(&*it));
+        for (auto it = B.begin(); it != B.end() && gb.size() < 10; ++it)
+            gb.push_back(ident(&*it));
+        for (auto it = A.rbegin(); it != A.rend() && gra.size() < 10; ++it)
+            gra.push_back(ident(&*it));
+        for (auto it = B.rbegin(); it != B.rend() && grb.size() < 10; ++it)
+            grb.push_back(ident(&*it));
+        vector<int> wra(ra.rbegin(), ra.rend()), wrb(rb.rbegin(), rb.rend());
+        report("cxx_dlist_member_a", "forward", ga, ra);
+        report("cxx_dlist_member_b", "forward", gb, rb);
+        report("cxx_dlist_member_a", "backward", gra, wra);
+        report("cxx_dlist_member_b", "backward", grb, wrb);
+        if (!ra.empty() && (ident(&A.front()) != ra.front() || ident(&A.back()) != ra.back()))
+            mc::violation("C01.two_links.cxx_dlist_member_a.front_back", "front/back are e%d/e%d, reference e%d/e%d", ident(&A.front()), ident(&A.back()), ra.front(), ra.back());
+        if (!rb.empty() && (ident(&B.front()) != rb.front() || ident(&B.back()) != rb.back()))
+            mc::violation("C01.two_links.cxx_dlist_member_b.front_back", "front/back are e%d/e%d, reference e%d/e%d", ident(&B.front()), ident(&B.back()), rb.front(), rb.back());
+        if (A.size() != ra.size() || B.size() != rb.size())
+            mc::violation("C01.two_links.cxx_dlist.size", "sizes %zu/%zu, reference %zu/%zu", A.size(), B.size(), ra.size(), rb.size());
+        // C entry macros over the same history
+        vector<int> ca_f, cb_f, ca_r, cb_r, ca_s, cb_s;
+        TwoC *q, *qn;
+        dlist_for_each_entry(q, &ca, la) ca_f.push_back(cident(q));
+        dlist_for_each_entry(q, &cb, lb) cb_f.push_back(cident(q));
+        dlist_for_each_entry_reverse(q, &ca, la) ca_r.push_back(cident(q));
+        dlist_for_each_entry_reverse(q, &cb, lb) cb_r.push_back(cident(q));
+        dlist_for_each_entry_safe(q, qn, &ca, la) ca_s.push_back(cident(q));
+        dlist_for_each_entry_safe(q, qn, &cb, lb) cb_s.push_back(cident(q));
+        report("c_dlist_member_a", "forward", ca_f, ra);
+        report("c_dlist_member_b", "forward", cb_f, rb);
+        report("c_dlist_member_a", "backward", ca_r, wra);
+        report("c_dlist_member_b", "backward", cb_r, wrb);
+        report("c_dlist_member_a", "forward_safe", ca_s, ra);
+        report("c_dlist_member_b", "forward_safe", cb_s, rb);
+        if (!ra.empty() && (cident(dlist_first_entry(&ca, TwoC, la)) != ra.front() || cident(dlist_last_entry(&ca, TwoC, la)) != ra.back()))
+            mc::violation("C01.two_links.c_dlist_member_a.first_last", "dlist_first_entry/dlist_last_entry disagree with the reference");
+        if (!rb.empty() && (cident(dlist_first_entry(&cb, TwoC, lb)) != rb.front() || cident(dlist_last_entry(&cb, TwoC, lb)) != rb.back()))
+            mc::violation("C01.two_links.c_dlist_member_b.first_last", "dlist_first_entry/dlist_last_entry disagree with the reference");
+        mc::outcome(vstr(ra) + "|" + vstr(rb));
+        // C++ slist: push the reference orders through add_first on two members, read both back
+        {
+            igris::slist<TwoX, &TwoX::sa> SA;
+            igris::slist<TwoX, &TwoX::sb> SB;
+            for (auto i = ra.rbegin(); i != ra.rend(); ++i)
+                SA.add_first(*e[*i]);
+            for (auto i = rb.rbegin(); i != rb.rend(); ++i)
+                SB.add_first(*e[*i]);
+            vector<int> sa, sb;
+            for (auto it = SA.begin(); it != SA.end() && sa.size() < 10; ++it)
+                sa.push_back(ident(&*it));
+            for (auto it = SB.begin(); it != SB.end() && sb.size() < 10; ++it)
+                sb.push_back(ident(&*it));
+            report("cxx_slist_member_a", "forward", sa, ra);
+            report("cxx_slist_member_b", "forward", sb, rb);
+        }
+        // unlink everything before the locals die (order of destruction must not matter here)
+        for (int i = 0; i < N; i++)
+        {
+            A.pop(*e[i]);
+            B.pop(*e[i]);
+        }
+    }
+}
+
 MC_INIT
 {
+    mc::add_check("two_links_per_element", two_links_per_element);
     mc::add_check("long_lists", long_lists);
     mc::add_bfs("c_dlist", [] { return std::unique_ptr<mc::Model>(new CDlist); });
     mc::add_bfs("cxx_dlist", [] { return std::unique_ptr<mc::Model>(new XDlist); });
